@@ -351,6 +351,11 @@ func errSignature(err error) string {
 		out = append(out, c)
 	}
 	r := string(out)
+	for _, marker := range []string{"file corruption in ", "overflow: "} {
+		if idx := strings.Index(r, marker); idx >= 0 {
+			r = r[:idx+len(marker)] + "<…>"
+		}
+	}
 	if idx := strings.Index(r, "/dev/shm"); idx >= 0 {
 		r = r[:idx] + "<path>"
 	}
